@@ -181,4 +181,53 @@ Section MlProofs.
     eapply join_sections_ok; [| constructor | exact Ej].
     apply sections_ok; [exact Ht | constructor | constructor].
   Qed.
+
+  (* ---- C12: the sections hold exactly the characters of the stream ---- *)
+  Lemma get_txt_pos_app a b :
+    get_txt_pos (a ++ b) =
+    (fst (get_txt_pos a) ++ fst (get_txt_pos b), snd (get_txt_pos a) ++ snd (get_txt_pos b)).
+  Proof.
+    induction a as [|t a IH]; simpl; [destruct (get_txt_pos b); reflexivity|].
+    rewrite IH. destruct (get_txt_pos a) as [s p]. simpl. rewrite <- !app_assoc. reflexivity.
+  Qed.
+
+  Definition all_txt (secs : list lsec) : str := flat_map s_txt secs.
+  Definition all_pos (secs : list lsec) : list Z := flat_map s_pos secs.
+  Definition not_lang (t : tok) : bool := negb (is_lang t).
+
+  Lemma flush_conserve stack back brk cur secs :
+    all_txt (flush stack back brk cur secs) = all_txt secs ++ fst (get_txt_pos (rev cur)) /\
+    all_pos (flush stack back brk cur secs) = all_pos secs ++ snd (get_txt_pos (rev cur)).
+  Proof.
+    unfold flush. pose proof (get_txt_pos_len (rev cur)) as L.
+    destruct (get_txt_pos (rev cur)) as [t p]. simpl in *.
+    destruct t as [|c t].
+    - destruct p; [|discriminate]. rewrite !app_nil_r. split; reflexivity.
+    - unfold all_txt, all_pos. rewrite !flat_map_app. simpl. rewrite !app_nil_r.
+      split; reflexivity.
+  Qed.
+
+  (* language tokens only cut the stream: text and positions of all sections
+     together are text and positions of the stream without them *)
+  Theorem sections_conserve : forall toks stack back brk cur secs,
+    let r := sections toks stack back brk cur secs in
+    let g := get_txt_pos (rev cur ++ filter not_lang toks) in
+    all_txt r = all_txt secs ++ fst g /\ all_pos r = all_pos secs ++ snd g.
+  Proof.
+    induction toks as [|t r IH]; intros stack back brk cur secs; cbn zeta.
+    - simpl. rewrite app_nil_r. apply flush_conserve.
+    - cbn [sections filter]. remember (not_lang t) as nl eqn:Hnl.
+      unfold not_lang, is_lang in Hnl.
+      destruct (tk t) eqn:Ek; subst nl; cbn [negb];
+        try (specialize (IH stack back brk (t :: cur) secs); cbn zeta in IH;
+             simpl rev in IH; rewrite <- app_assoc in IH; exact IH).
+      destruct (str_eqb lang _); [apply IH|].
+      destruct (back0 && _ && _); [apply IH|].
+      match goal with |- context [sections r ?st ?b ?k [] ?sc] =>
+        specialize (IH st b k [] sc) end.
+      cbn zeta in IH. simpl rev in IH. simpl app in IH.
+      destruct (flush_conserve stack back brk cur secs) as [F1 F2].
+      rewrite F1, F2 in IH. rewrite get_txt_pos_app. cbn [fst snd].
+      rewrite <- !app_assoc in IH. exact IH.
+  Qed.
 End MlProofs.
